@@ -155,7 +155,7 @@ func determineCompletionContext(content string, pos protocol.Position, ctx *prot
 		return ContextAccount
 	}
 
-	if strings.HasPrefix(line, "    ") || strings.HasPrefix(line, "\t") {
+	if line[0] == ' ' || line[0] == '\t' {
 		return determinePostingContext(line, pos)
 	}
 
@@ -647,38 +647,9 @@ func calculateTextEditRange(content string, pos protocol.Position, ctxType Compl
 		byteCol = len(line)
 	}
 
-	var startByte int
-	switch ctxType {
-	case ContextAccount:
-		if strings.HasPrefix(line, directiveAccount) {
-			startByte = len(directiveAccount)
-		} else if strings.HasPrefix(line, directiveApplyAccount) {
-			startByte = len(directiveApplyAccount)
-		} else {
-			trimmed := strings.TrimLeft(line[:byteCol], " \t")
-			startByte = byteCol - len(trimmed)
-		}
-	case ContextCommodity:
-		if strings.HasPrefix(line, directiveCommodity) {
-			startByte = len(directiveCommodity)
-		} else {
-			startByte = findCommodityStart(line, byteCol)
-		}
-	case ContextPayee:
-		spaceIdx := strings.Index(line[:byteCol], " ")
-		if spaceIdx != -1 {
-			startByte = spaceIdx + 1
-			for startByte < byteCol && (line[startByte] == ' ' || line[startByte] == '*' || line[startByte] == '!') {
-				startByte++
-			}
-		}
-	default:
+	startByte, ok := fragmentStart(line, byteCol, ctxType)
+	if !ok {
 		return nil
-	}
-
-	// the edit replaces the typed fragment up to the cursor and never starts behind it
-	if startByte > byteCol {
-		startByte = byteCol
 	}
 
 	startChar := lsputil.ByteOffsetToUTF16(line, startByte)
@@ -688,19 +659,100 @@ func calculateTextEditRange(content string, pos protocol.Position, ctxType Compl
 	}
 }
 
-func findCommodityStart(line string, byteCol int) int {
-	parts := parsePosting(line)
-	if parts.separatorIdx == -1 {
-		return byteCol
+// fragmentStart returns the byte offset at which the name being typed before the cursor begins.
+// The edit range and the filter query are both derived from it, so that an accepted item
+// replaces exactly the text it was matched against.
+func fragmentStart(line string, byteCol int, ctxType CompletionContextType) (int, bool) {
+	before := line[:byteCol]
+	start := 0
+
+	switch ctxType {
+	case ContextAccount:
+		switch {
+		case strings.HasPrefix(line, directiveAccount):
+			start = len(directiveAccount)
+		case strings.HasPrefix(line, directiveApplyAccount):
+			start = len(directiveApplyAccount)
+		default:
+			start = skipBlanks(before, 0)
+			// posting status mark
+			if start < len(before) && (before[start] == '*' || before[start] == '!') &&
+				(start+1 == len(before) || before[start+1] == ' ' || before[start+1] == '\t') {
+				start = skipBlanks(before, start+1)
+			}
+			// virtual posting
+			if start < len(before) && (before[start] == '(' || before[start] == '[') {
+				start++
+			}
+		}
+	case ContextCommodity:
+		if strings.HasPrefix(line, directiveCommodity) {
+			start = len(directiveCommodity)
+		} else {
+			// inside the first amount nothing typed counts as a commodity fragment
+			amountEnd := 0
+			if parts := parsePosting(line); parts.separatorIdx != -1 {
+				amountEnd = parts.indent + parts.separatorIdx + parts.skipSpaces + parts.amountEnd
+			}
+			start = len(before)
+			if quote := strings.LastIndexByte(before, '"'); quote >= amountEnd && strings.Count(before[amountEnd:], "\"")%2 == 1 {
+				// an open quote: the symbol may contain anything up to the closing one
+				start = quote + 1
+			} else {
+				for start > amountEnd && isCommodityFragmentByte(before[start-1]) {
+					start--
+				}
+			}
+		}
+	case ContextPayee:
+		spaceIdx := strings.IndexAny(before, " \t")
+		if spaceIdx == -1 {
+			return byteCol, true
+		}
+		start = skipBlanks(before, spaceIdx)
+		if start < len(before) && (before[start] == '*' || before[start] == '!') {
+			start = skipBlanks(before, start+1)
+		}
+		if start < len(before) && before[start] == '(' {
+			if end := strings.IndexByte(before[start:], ')'); end != -1 {
+				start = skipBlanks(before, start+end+1)
+			}
+		}
+	case ContextTagName:
+		start = len(before)
+		for start > 0 && !strings.ContainsRune(" \t,;", rune(before[start-1])) {
+			start--
+		}
+	case ContextTagValue:
+		colon := strings.LastIndex(before, ":")
+		if colon == -1 {
+			return 0, false
+		}
+		start = skipBlanks(before, colon+1)
+	default:
+		return 0, false
 	}
 
-	commodityStart := parts.indent + parts.separatorIdx + parts.skipSpaces + parts.amountEnd
-
-	for commodityStart < len(line) && line[commodityStart] == ' ' {
-		commodityStart++
+	// the edit replaces the typed fragment up to the cursor and never starts behind it
+	if start > byteCol {
+		start = byteCol
 	}
+	return start, true
+}
 
-	return commodityStart
+func skipBlanks(s string, i int) int {
+	for i < len(s) && (s[i] == ' ' || s[i] == '\t') {
+		i++
+	}
+	return i
+}
+
+// isCommodityFragmentByte reports whether c can be part of an unquoted commodity symbol.
+func isCommodityFragmentByte(c byte) bool {
+	if c >= '0' && c <= '9' {
+		return false
+	}
+	return !strings.ContainsRune(" \t-+.,@=;()*!\"", rune(c))
 }
 
 func extractQueryText(content string, pos protocol.Position, ctxType CompletionContextType) string {
@@ -715,45 +767,11 @@ func extractQueryText(content string, pos protocol.Position, ctxType CompletionC
 		byteCol = len(line)
 	}
 
-	beforeCursor := line[:byteCol]
-
-	switch ctxType {
-	case ContextAccount:
-		if after, found := strings.CutPrefix(beforeCursor, directiveAccount); found {
-			return after
-		}
-		if after, found := strings.CutPrefix(beforeCursor, directiveApplyAccount); found {
-			return after
-		}
-		trimmed := strings.TrimLeft(beforeCursor, " \t")
-		return trimmed
-
-	case ContextPayee:
-		_, after, found := strings.Cut(beforeCursor, " ")
-		if !found {
-			return ""
-		}
-		return strings.TrimLeft(after, " ")
-
-	case ContextCommodity:
-		if after, found := strings.CutPrefix(beforeCursor, directiveCommodity); found {
-			return after
-		}
-		trimmed := strings.TrimLeft(beforeCursor, " \t")
-		separatorIdx := findDoublespace(trimmed)
-		if separatorIdx == -1 {
-			return ""
-		}
-		afterAccount := strings.TrimLeft(trimmed[separatorIdx:], " ")
-		amountEnd := findAmountEnd(afterAccount)
-		if amountEnd >= len(afterAccount) {
-			return ""
-		}
-		return strings.TrimLeft(afterAccount[amountEnd:], " ")
-
-	default:
+	start, ok := fragmentStart(line, byteCol, ctxType)
+	if !ok {
 		return ""
 	}
+	return line[start:byteCol]
 }
 
 const (
